@@ -1225,7 +1225,11 @@ func (w *World) monElection(n *node, kind string, in *pb.Message, pre, post *raf
 			w.Stats["elections-won-after-restart"]++
 		}
 		if !g[n.id] {
+			// the grants of the peers may be a majority without it, but the node now
+			// speaks as leader of a term its stable storage does not know: a crash here
+			// restarts it below that term, free to vote for - or be - another leader of it
 			w.Stats["elections-won-before-own-vote-durable"]++
+			w.violate("C05", []string{"C02"}, "node %d became leader of term %d (%s) while its durable hard state is %v: its own vote for that term is not on stable storage yet", n.id, post.Term, kind, d.hardState())
 		}
 		n.grants = nil
 		n.leaderSince = w.clock
